@@ -44,7 +44,7 @@ func checkC18(c *Ctx) {
 	}
 	sects := map[*ssa.Function]*sect{}
 	for _, f := range m.Funcs {
-		if f == m.Ctor {
+		if m.isCtorCode(f) {
 			continue
 		}
 		eachInstr(f, func(in ssa.Instruction) {
@@ -184,7 +184,8 @@ func checkC18(c *Ctx) {
 			if reachesMetric(g, "IncTransitions") && len(call.Call.Args) >= 3 && la.MustBefore(in)[m.implMuW()] {
 				to, isC := constStr(call.Call.Args[2])
 				from := m.Sym.Of(call.Call.Args[1])
-				fromOK := strings.Contains(from.String(), "(*sync/atomic.Value).Load(&"+m.path(m.State)+")")
+				fo := m.Origins(call.Call.Args[1])
+				fromOK := fo["field:"+m.State] && fo.all(func(k string) bool { return k == "field:"+m.State || strings.HasPrefix(k, "const:") })
 				// the state load precedes the state store
 				ordered := true
 				if len(s.stateI) > 0 {
@@ -213,7 +214,7 @@ func checkC18(c *Ctx) {
 	for _, fld := range []string{m.LeaderID, m.Token} {
 		n := 0
 		for _, f := range m.Funcs {
-			if f == m.Ctor {
+			if m.isCtorCode(f) {
 				continue
 			}
 			eachInstr(f, func(in ssa.Instruction) {
